@@ -31,4 +31,6 @@ try:
         prob = re.findall(r"TOOL PROBLEM: (.*)", out)
         print("%s %s check=%s rc=%d %s %s" % (prop, os.path.relpath(patch, "/tmp"), p, c.returncode, " | ".join(what), (" PROBLEM: " + prob[0][:200]) if prob else ""), flush=True)
 finally:
+    import hashlib, tempfile as _t
+    shutil.rmtree(os.path.join(_t.gettempdir(), "verif-scn-" + hashlib.sha1(d.encode()).hexdigest()[:8]), ignore_errors=True)
     shutil.rmtree(d, ignore_errors=True)
